@@ -11,7 +11,7 @@ ENV = dict(os.environ, GOFLAGS="-mod=mod", GOPROXY="off", GOSUMDB="off", GOTOOLC
 
 
 def sh(cmd, cwd=None, timeout=3600):
-    p = subprocess.run(cmd, cwd=cwd, env=ENV, shell=isinstance(cmd, str), stdout=subprocess.PIPE, stderr=subprocess.STDOUT, text=True, timeout=timeout)
+    p = subprocess.run(cmd, cwd=cwd, env=ENV, shell=isinstance(cmd, str), stdout=subprocess.PIPE, stderr=subprocess.STDOUT, text=True, errors='replace', timeout=timeout)
     return p.returncode, p.stdout
 
 
@@ -56,7 +56,7 @@ def verify(src, sid):
             os.remove(os.path.join(wt, dest))
         t0 = time.time()
         rct, outt = sh("go test -vet=off -count=1 -timeout 25m $(go list ./... | grep -v libp2p)", cwd=wt, timeout=3000)
-        failed_pkgs = re.findall(r"^FAIL\s+(\S+)", outt, re.M)
+        failed_pkgs = re.findall(r"^FAIL[ \t]+(\S+)", outt, re.M)
         flaky = []
         for pkg in list(failed_pkgs):
             # the sandbox is loaded by other jobs: a package that passes on a re-run is counted as flaky, not as broken
